@@ -282,6 +282,37 @@ def handle (args : List String) (impl : String) : String × String :=
     if impl = r then (r, r)
     else if counts impl == counts r ∧ (counts r).getLast? == some "other=0" then (r, "pred:true")
     else (r, "pred:false acceptance counts differ from the model: " ++ " ".intercalate (counts r))
+  | ["sv", bs, hr, kind, pay] =>
+    -- `Uint::deserialize` driven through ONE visitor entry point (harness `VisitProbe`): the model is what the impl defines
+    -- (human-readable: `visit_u64` / `visit_u128` of a fitting value; binary: `visit_bytes` of exactly BYTES big-endian bytes
+    -- of a fitting value; every other entry point is an error); the spec judges any accepted value against what the
+    -- payload denotes for that entry point
+    let bits := parseDec bs
+    let p := parseBytes pay
+    let be (n : Nat) : Nat := beVal (p.take n)
+    let okStr (v : Nat) : String := "ok " ++ toHex v
+    let defined : Option Nat :=
+      if hr = "1" then (match kind with | "u64" => some (be 8) | "u128" => some (be 16) | _ => none)
+      else (match kind with | "bytes" => (if p.length = nbytes bits then some (beVal p) else none) | _ => none)
+    let m := match defined with
+      | some v => if v < 2 ^ bits then okStr v else "err"
+      | none => "err"
+    let denotes : Option Nat := match kind with
+      | "u64" => some (be 8)
+      | "u128" => some (be 16)
+      | "i64" => if be 8 < 2 ^ 63 then some (be 8) else none
+      | "i128" => if be 16 < 2 ^ 127 then some (be 16) else none
+      | "bytes" | "seq" => if p.length = nbytes bits then some (beVal p) else none
+      | _ => none
+    let spec :=
+      if impl = "err" then
+        (match defined with
+         | some v => if v < 2 ^ bits then "pred:false a value the format defines was rejected" else "pred:true"
+         | none => "pred:true")
+      else match denotes with
+        | some v => if v < 2 ^ bits ∧ impl = okStr v then "pred:true" else "pred:false accepted something the input does not denote"
+        | none => "pred:false accepted an input that denotes no value through this entry point"
+    (m, spec)
   | ["d_bigint", bs, sign, mag] =>
     let bits := parseDec bs
     let m := fmtV (Fixed.fromBigInt bits (sign = "-" && parseHex mag != 0) (parseHex mag))
